@@ -700,6 +700,14 @@ def run_c07(tier, seed):
         chk.coverage["witness_under_churn"] = dict(rounds=r.get("witness_rounds"), config_sets=r.get("config_sets"), short_connections=r.get("churn"))
     if not wrows and not chk.violations:
         chk.violation("incomplete", "the witness run produced no result: %s" % wo[-300:], dict(output=wo[-2000:]), True)
+    # real sockets: clients that connect at the SAME moment are other clients to each other - every one is served on its own socket
+    # with its own replies (a client that arrives while the previous one is being handed to its goroutine must not take its place)
+    import lifeprops
+    brows, bo = lifeprops.run_mode(chk, "burst", ["6" if tier == "quick" else "60", "12"], timeout=300)
+    for r in brows:
+        if r.get("problems"):
+            chk.violation("simultaneous-clients", "%d plain and TLS clients connecting at the same moment (round %d): %s" % (r.get("clients", 0), r.get("round", 0), " ; ".join(r["problems"])[:500]), dict(row=r))
+    chk.coverage["simultaneous_client_rounds"] = len(brows)
     if broken and not chk.violations:
         chk.violation("proof-broken", broken, dict(broken=broken, theorem="GRP.C07"), True)
     chk.coverage.update(
